@@ -17,6 +17,7 @@ import (
 	"strings"
 
 	ucfg "github.com/elastic/go-ucfg"
+	"github.com/elastic/go-ucfg/cfgutil"
 	"github.com/elastic/go-ucfg/flag"
 	"github.com/elastic/go-ucfg/parse"
 
@@ -133,9 +134,103 @@ type fileEntry struct {
 	nilCfg bool
 }
 
+// collectorRun drives cfgutil.Collector directly (C19: "Collector keeps config, first error and
+// options; Add merges"): a history of Add(cfg, err) calls with loader errors, nil configs and
+// configs that fail to merge at any position.
+func collectorRun(r *sim.R, maxAdds int) {
+	t := r.T
+	o := genOpts(r)
+	var def *ucfg.Config
+	mcfg := ucfg.New()
+	if t.Chance(1, 3, "with-default") {
+		init := map[string]interface{}{"a": map[string]interface{}{"b": uint64(1)}, "c": []interface{}{uint64(1), uint64(2)}}
+		def, _ = ucfg.NewFrom(init, o.opts...)
+		mcfg, _ = ucfg.NewFrom(init, o.opts...)
+	}
+	var c *cfgutil.Collector
+	r.MustComplete("NewCollector", func() { c = cfgutil.NewCollector(def, o.opts...) })
+	r.Tracef("collector(default=%v opts=%v)", def != nil, o.desc)
+	if got := c.GetOptions(); len(got) != len(o.opts) {
+		r.Fail("accumulate", "GetOptions", "GetOptions() returns %d options, the collector was created with %d", len(got), len(o.opts))
+	}
+	var firstErr error
+	ctr := 0
+	n := 1 + t.Choose(maxAdds, "n-adds")
+	for i := 0; i < n; i++ {
+		r.NextStep()
+		var cfg *ucfg.Config
+		var lerr error
+		desc := ""
+		switch t.Weighted([]int{6, 1, 1, 1}, "add-kind") {
+		case 0:
+			arg := genKey(r) + "=" + genValue(r, &ctr, 0)
+			cfg, lerr = kvModel(arg, true, o)
+			desc = arg
+			if lerr != nil {
+				cfg = nil
+			}
+		case 1:
+			lerr = errors.New("load error " + strconv.Itoa(i))
+			desc = "error"
+			r.Fault("loader error handed to the collector")
+		case 2:
+			desc = "nil config"
+			r.Fault("nil config handed to the collector")
+		case 3:
+			// a config together with an error: the error wins, the config is not merged
+			cfg, _ = ucfg.NewFrom(map[string]interface{}{"zz": uint64(1)}, o.opts...)
+			lerr = errors.New("partial load " + strconv.Itoa(i))
+			desc = "config + error"
+			r.Fault("config handed to the collector together with an error")
+		}
+		var got error
+		r.MustComplete("Add", func() { got = c.Add(cfg, lerr) })
+		r.Tracef("Add(%s) = %v", desc, got)
+		// model: after the first error nothing is merged and that error is returned
+		var want error
+		switch {
+		case firstErr != nil:
+			want = firstErr
+			r.Probe("flags: Set after the first error")
+		case lerr != nil:
+			firstErr, want = lerr, lerr
+		case cfg != nil:
+			if err := mcfg.Merge(cfg, o.opts...); err != nil {
+				firstErr, want = err, err
+			} else {
+				r.StateOps++
+			}
+		}
+		if (got == nil) != (want == nil) || (got != nil && got.Error() != want.Error()) {
+			r.Fail("first-error", "Add", "Add(%s) returned %v, sequential semantics give %v", desc, got, want)
+		}
+		gc, ge := c.Get()
+		if gc != c.Config() || ge != c.Error() {
+			r.Fail("accumulate", "Get", "Get() disagrees with Config() / Error()")
+		}
+		if (c.Error() == nil) != (firstErr == nil) || (firstErr != nil && c.Error().Error() != firstErr.Error()) {
+			r.Fail("first-error", "Add", "after Add(%s): Error() = %v, the first error was %v", desc, c.Error(), firstErr)
+		}
+		var g, w string
+		var gerr, werr error
+		r.MustComplete("Config.Unpack", func() { g, gerr = unpack(c.Config(), o.opts) })
+		w, werr = unpack(mcfg, o.opts)
+		if (gerr == nil) != (werr == nil) || g != w {
+			r.FailD("accumulate", "Add", map[string]string{"got": g, "want": w}, "after Add(%s): Config() unpacks to %s (%v); merging in order with the collector's options gives %s (%v)", desc, g, gerr, w, werr)
+		}
+		if def != nil && c.Config() != def {
+			r.Fail("accumulate", "Add", "the collector does not write through to the config it was given")
+		}
+	}
+}
+
 // Run executes one flag history.
 func Run(r *sim.R, maxSets int) {
 	t := r.T
+	if t.Chance(1, 6, "collector-direct") {
+		collectorRun(r, maxSets)
+		return
+	}
 	o := genOpts(r)
 	files := t.Chance(1, 3, "files-flavour")
 	autoBool := !t.Chance(1, 4, "no-autobool")
